@@ -199,3 +199,95 @@ def seqOf (cfg : Cfg) : St → List Label → List Label
      | .q _ _ => []) ++ seqOf cfg (step cfg s l) ls
 
 end SigModel.Conc
+
+/-
+The read of ONE request of a record query against a concurrent rotation of that request's segment, at the
+granularity of the lock acquisitions of the read path (the machine above treats this read as one step):
+
+  A  query.GetSSRsFromQSR (segquery.go 1164-1195):           `writer.IsSegKeyUnrotated(key)`      (RLock, released)
+  B  metadata.CheckMicroIndicesForUnrotated (unrotatedmeta.go 68-120): look-up of the key under a SECOND RLock;
+     a missing key is logged and the segment is SKIPPED (`continue`)
+  C  segread.initNewMultiColumnReader (multicolreader.go 84-160): `writer.IsSegKeyUnrotated(key)` again
+  D  `writer.GetBlockSearchInfoForKey(key)` under a further RLock; a missing key is an error, on which
+     InitSharedMultiColumnReaders calls `sharedReader.Close()` and returns the reader AND the error, and its
+     caller search.RawSearchSingleQuery (filtersearch.go 41-54) only logs the error and runs
+     `defer sharedMultiReader.Close()` — the FD semaphore is released twice: panic "semaphore: released more
+     than held" on a search goroutine, the process dies.
+  If A or C answer "not unrotated" the rotated metadata / the segment's files are used (always present after
+  `addMeta`, which precedes `removeUnrot`).
+
+Facts C11.read.* tie the call orders.  `atomicLookup = true` is the repaired reader (check and look-up under
+one lock acquisition), used to state what the repair achieves.
+-/
+namespace SigModel.Conc.ReadOne
+
+/-- rotation of the request's segment: protocol steps executed so far (order of `Cfg.real.rotOrder`) -/
+inductive RotPc where
+  | start | segmeta | added | removed | reset
+deriving DecidableEq, Repr
+
+def RotPc.next : RotPc → RotPc
+  | .start => .segmeta | .segmeta => .added | .added => .removed | .removed => .reset | .reset => .reset
+
+/-- the key is in AllUnrotatedSegmentInfo -/
+def RotPc.inUnrot : RotPc → Bool
+  | .start | .segmeta | .added => true
+  | _ => false
+
+/-- the key is in the rotated metadata -/
+def RotPc.inRot : RotPc → Bool
+  | .added | .removed | .reset => true
+  | _ => false
+
+inductive RPc where
+  | checkSsr | lookupSsr | checkReader | lookupReader | done
+deriving DecidableEq, Repr
+
+inductive Outcome where
+  | readUnrotated | readRotated | skipped | crashed
+deriving DecidableEq, Repr
+
+structure RSt where
+  rot : RotPc := .start
+  pc : RPc := .checkSsr
+  outcome : Option Outcome := none
+deriving DecidableEq, Repr
+
+inductive RLabel where
+  | rot | read
+deriving DecidableEq, Repr
+
+/-- one lock acquisition of the reader -/
+def readStep (atomicLookup : Bool) (s : RSt) : RSt :=
+  match s.pc with
+  | .checkSsr =>
+    if s.rot.inUnrot then (if atomicLookup then { s with pc := .checkReader } else { s with pc := .lookupSsr })
+    else if s.rot.inRot then { s with pc := .checkReader }
+    else { s with pc := .done, outcome := some .skipped }
+  | .lookupSsr =>
+    if s.rot.inUnrot then { s with pc := .checkReader } else { s with pc := .done, outcome := some .skipped }
+  | .checkReader =>
+    if s.rot.inUnrot then
+      (if atomicLookup then { s with pc := .done, outcome := some .readUnrotated } else { s with pc := .lookupReader })
+    else { s with pc := .done, outcome := some .readRotated }
+  | .lookupReader =>
+    if s.rot.inUnrot then { s with pc := .done, outcome := some .readUnrotated }
+    else { s with pc := .done, outcome := some .crashed }
+  | .done => s
+
+def rstep (atomicLookup : Bool) (s : RSt) : RLabel → RSt
+  | .rot => { s with rot := s.rot.next }
+  | .read => readStep atomicLookup s
+
+def rrun (atomicLookup : Bool) (s : RSt) (l : List RLabel) : RSt := l.foldl (rstep atomicLookup) s
+
+/-- schedule guard: the `removeUnrot` step does not fall between a check and its look-up -/
+def noRemoveInWindow (s : RSt) : List RLabel → Bool
+  | [] => true
+  | l :: ls =>
+    (match l with
+     | .rot => !(s.rot == .added && (s.pc == .lookupSsr || s.pc == .lookupReader))
+     | .read => true) && noRemoveInWindow (rstep false s l) ls
+
+end SigModel.Conc.ReadOne
+
